@@ -34,6 +34,8 @@ def run(ctx, chk, tier="quick"):
     )
     chk.assumptions = ["scipy.integrate.quad integrates its first argument between its 2nd and 3rd",
                        "identifier suffixes state units; `curvature_km` means km^-1 (override table)"]
+    from .. import sqltypes
+    sqltypes.check(ctx, chk, "C18.O3", modules=("simulate_recession",), views=("average_recession_time",))
     f = ctx.func("simulate_recession.compute_recession_curve")
     p = f.params  # specific_yield, transmissivity_m2_d, zeta_grid_mm, mean_elapsed_time_d, curvature_km, et_mm_d
     if len(p) < 6:
